@@ -190,10 +190,10 @@ def new_args(mir, tt, timeout, pr, cands):
         pr.out['syntactic'] = pr.out.get('syntactic', 0) + 4
         if bad: cands.append(dict(role='jit-new/passes-get-different-arguments:' + ','.join(bad), detail=f'JitMemory::new passes different {bad} to the sizing and the emitting pass: {[(str(a[x]), str(b[x])) for x in bad]}', model=None, friendly=True))
         m1, m2 = a['mem'], b['mem']
-        goal = And(Not(m1.f[1].t) if not isinstance(m1.f[1].t, bool) else BoolVal(not m1.f[1].t), m1.f[-1].t == 0, m2.f[1].t, m2.f[-1].t == 0, UGE(m2.f[0].len, BitVec('emitted!1', 64)), UGE(m2.f[0].len, 4096))
+        goal = And(Not(m1.f[1].t) if not isinstance(m1.f[1].t, bool) else BoolVal(not m1.f[1].t), m1.f[-1].t == 0, m2.f[1].t, m2.f[-1].t == 0, UGE(m2.f[0].len, BitVec('emitted!1', 64)))
         if caller_mem is not None:       # no_std: pass 2 writes into the caller's memory, which is page aligned
             goal = And(goal, m2.f[0].base == caller_mem.base, m2.f[0].len == caller_mem.len, URem(caller_mem.base, 4096) == 0)
-        r, m = pr.prove('JitMemory::new:buffer-holds-counted-size', list(q.st.pc) + [ULE(BitVec('emitted!1', 64), 1 << 40)], goal, sample='JitMemory::new: pass 1 counts from 0 without writing, pass 2 writes from 0 into a buffer of at least max(counted, 4096) bytes')
+        r, m = pr.prove('JitMemory::new:buffer-holds-counted-size', list(q.st.pc) + [ULE(BitVec('emitted!1', 64), 1 << 40)], goal, sample='JitMemory::new: pass 1 counts from 0 without writing, pass 2 writes from 0 into a buffer of at least the counted size')
         if r == 'sat': cands.append(dict(role='jit-new/buffer-smaller-than-counted', detail='the buffer handed to the emitting pass can be smaller than the counted size', model=None, friendly=True))
     if not two: pr.out['errors'].append('JitMemory::new: no path runs both passes')
     else: pr.out['witnesses'] += 1
